@@ -70,6 +70,7 @@ BadVariants(op) ==
     [] op \in {"acc", "disc", "blk", "unb"} -> {"self", "badkey", "longkey", "nokey"}
     [] OTHER -> {}
 Variants(op) == {""} \cup (BadVariants(op) \cap Bad) \cup (IF op = "recv" THEN {"noseed"} ELSE {})
+                \cup (IF op \in {"enq", "recv"} THEN {"sameseed"} ELSE {})
 
 NoDet == [seed |-> 0, meta |-> 0, own |-> 0]
 Event(k, sub, s, m, o) == [k |-> k, sub |-> sub, seed |-> s, meta |-> m, own |-> o]
@@ -81,7 +82,8 @@ Refuse == /\ UNCHANGED <<cs, det, sw, seed, log, sec>>
 ContactOp(op, c, v, y) ==
   LET i == n + 1
       carries == op \in {"enq", "recv"}
-      aseed == IF carries /\ v # "noseed" THEN i ELSE 0
+      \* "sameseed": a re-send carrying the seed currently reported for the contact (a fresh one if none is)
+      aseed == IF carries /\ v # "noseed" THEN (IF v = "sameseed" /\ det[c].seed # 0 THEN det[c].seed ELSE i) ELSE 0
       ameta == IF carries /\ (y % 2 = 1) THEN i ELSE 0
       aown  == IF op = "enq" /\ (y \div 2 = 1) THEN i ELSE 0
       ev == Outcome(op, cs[c])
